@@ -8,7 +8,7 @@ RULE = ("kind=repr (35%): StaticBinning (consecutive, gapped, integer edges), Nu
         "right edge), ExponentialBinning at scales 1e-7..1e7 with offsets up to 1e6 x scale: bins, numpy_bins, numpy_bins_with_mask, "
         "bin_count, first/last edge, is_consecutive, is_regular, copy, ==, as_static and 4 slices each are read. kind=rule (40%): "
         "numpy (count, range), fixed_width (width, range, right edge, shift, align), integer (width 1/2, range), pretty (count or "
-        "ideal count, range), quantile (count or q list, qrange), exponential (count, range), static, and the bin-count method names "
+        "ideal count, range), quantile (count or q list, qrange), exponential (count, range), static, astropy's scott / freedman / blocks, and the bin-count method names "
         "through calculate_1d_bins; data of 2..60 distinct doubles over 14 orders of magnitude and offsets; requests that cannot be "
         "served (one value, non-positive data for exponential) must be refused. kind=count (12%): n in 0..1e7 incl. perfect powers "
         "+-1 for sturges / sqrt / rice / default, random samples for doane. kind=refuse (13%): pairs / edges that are valid, "
@@ -66,11 +66,11 @@ def gen(rng, n, tier):
             sl = [[a, b] for a, b in ((rng.randint(0, nb), rng.randint(0, nb + 1)) for _ in range(4)) if a <= b]
             yield [["bucket", "repr/" + cls], ["kind", "repr"], ["spec", spec], ["slice_args", sl], ["perturb", rng.choice([0, 0, 1])]]
         elif r < 0.75:
-            meth = rng.choice(["numpy", "numpy", "fixed_width", "fixed_width", "integer", "pretty", "pretty", "quantile", "exponential", "static", "countname"])
-            data = gen_data(rng, positive=meth == "exponential")
+            meth = rng.choice(["numpy", "numpy", "fixed_width", "fixed_width", "integer", "pretty", "pretty", "quantile", "exponential", "static", "countname", "scott", "freedman", "blocks"])
+            data = gen_data(rng, positive=meth == "exponential", n=(rng.choice([8, 20, 60]) if meth in ("scott", "freedman", "blocks") else None))
             mn, mx = min(data), max(data)
             rngarg = "none"
-            if rng.random() < 0.3 and meth not in ("quantile", "static", "countname"):
+            if rng.random() < 0.3 and meth not in ("quantile", "static", "countname", "scott", "freedman", "blocks"):
                 lo = fl(float(mn) - float(mx - mn) * rng.uniform(0, 0.5)); hi = fl(float(mx) + float(mx - mn) * rng.uniform(0, 0.5))
                 if meth == "exponential" and lo <= 0: lo = mn
                 if meth == "integer": lo, hi = Fr(math.floor(mn)), Fr(math.ceil(mx) + 1)
@@ -117,6 +117,7 @@ def gen(rng, n, tier):
             elif meth == "static":
                 p = gen_pairs(rng, rng.randint(1, 5), gapped=rng.random() < 0.4, scale=rng.choice(SCALES))
                 c.append(["given", p]); c.append(["as_edges", "T" if all(p[k][1] == p[k + 1][0] for k in range(len(p) - 1)) and rng.random() < 0.5 else "F"])
+            if meth in ("scott", "freedman", "blocks"): c.append(["sorted", sorted(data)])
             c.append(["via", rng.choice(["factory", "calculate_1d_bins"])])
             yield c
         elif r < 0.87:
@@ -242,6 +243,11 @@ def impl(case):
                     b = B.quantile_binning(data, **kw2) if via == "factory" else calculate_1d_bins(data, "quantile", **kw2)
                 elif meth == "exponential":
                     b = B.exponential_binning(data, d["bin_count"], **kw) if via == "factory" else calculate_1d_bins(data, "exponential", bin_count=d["bin_count"], **kw)
+                elif meth in ("scott", "freedman", "blocks"):
+                    b = B.binning_methods[meth](data) if via == "factory" else calculate_1d_bins(data, meth)
+                    from astropy.stats import scott_bin_width, freedman_bin_width, bayesian_blocks
+                    ref = {"scott": lambda: scott_bin_width(data, True)[1], "freedman": lambda: freedman_bin_width(data, True)[1], "blocks": lambda: bayesian_blocks(data)}[meth]()
+                    extra = [["ref", [float(x) for x in ref]]]
                 elif meth == "static":
                     g = _arr(d["given"])
                     if d["as_edges"] == "T": g = np.concatenate([g[:1, 0], g[:, 1]])
